@@ -71,6 +71,10 @@ impl<'de, T> Visitor<'de> for TooDeeVisitor<T>
         if product != data.len() {
             return Err(de::Error::invalid_length(product, &"dimensions to match array length"))
         }
+        // `TooDee::from_vec` asserts this; untrusted input must produce an error, not a panic
+        if (num_cols == 0) != (num_rows == 0) {
+            return Err(de::Error::invalid_value(Unexpected::Other("exactly one zero dimension"), &"both dimensions to be zero, or neither"))
+        }
         Ok(TooDee::from_vec(num_cols, num_rows, data))
     }
 }
